@@ -1,6 +1,9 @@
 #include "recbackend.h"
 #include "recjson.h"
 #include "mp/flat/model_api_base.h"
+#include "mp/nl-reader.h"
+#include <cstring>
+#include <cerrno>
 #include "rec_c04.h"
 namespace mp { void RecDumpLinks(pre::BasicValuePresolver &); }  // recmodelmgr.cc (C19 extension)
 
@@ -10,12 +13,36 @@ std::unique_ptr<mp::BasicBackend> CreateRecBackend() {
 
 namespace mp {
 
+void rec_fault(const char *site) {
+  const char *f = std::getenv("RECSOLVER_FAULT");
+  if (!f) return;
+  size_t n = std::strlen(site);
+  if (std::strncmp(f, site, n) != 0 || f[n] != ':') return;
+  std::string kind = f + n + 1;
+  int code = 0;
+  auto p = kind.find(':');
+  if (p != std::string::npos) { code = std::atoi(kind.c_str() + p + 1); kind.erase(p); }
+  std::string msg = std::string("injected ") + kind + " at " + site;
+  if (kind == "plain") MP_RAISE(msg);
+  if (kind == "withCode") MP_RAISE_WITH_CODE(code, msg);
+  if (kind == "infeas") MP_INFEAS(msg);
+  if (kind == "solCheck") MP_RAISE_WITH_CODE(int(sol::MP_SOLUTION_CHECK), msg);
+  if (kind == "unsupported") MP_UNSUPPORTED(msg);
+  if (kind == "optionError") throw OptionError(msg);
+  if (kind == "readError") throw ReadError("injected.nl", 1, 1, "{}", msg);
+  if (kind == "fmtError") throw Error("{}", msg);
+  if (kind == "systemError") throw fmt::SystemError(ENOENT, "{}", msg);
+  if (kind == "stdExn") throw std::runtime_error(msg);
+  if (kind == "foreign") throw 42;
+}
+
 std::unique_ptr<BasicModelManager>
 CreateRecModelMgr(RecCommon &, Env &, pre::BasicValuePresolver *&);
 /// C20: log every registered link entry with its final extent (defined in recmodelmgr.cc)
 void RecLogFinalLinks(pre::BasicValuePresolver &, RecState &);
 
 RecBackend::RecBackend() {
+  rec_fault("ctor");
   set_st(&st_);
   pre::BasicValuePresolver *pPre;
   auto data = CreateRecModelMgr(*this, *this, pPre);
@@ -26,6 +53,7 @@ RecBackend::RecBackend() {
 RecBackend::~RecBackend() {}
 
 void RecBackend::InitCustomOptions() {
+  rec_fault("init");
   set_option_header("recsolver: recording driver for verification.\n");
 }
 
@@ -65,6 +93,7 @@ bool RecBackend::IsMIP() const {
 
 void RecBackend::Solve() {
   st_.Log("{\"ev\":\"solve\"}");
+  rec_fault("solve");                                      // C09: RECSOLVER_FAULT=solve:<kind>
   RecDumpLinks(GetValuePresolver());                       // C19: RECSOLVER_LINKS=<file>
   if (const char *l = std::getenv("RECSOLVER_LINKS")) if (*l == '1') RecLogFinalLinks(GetValuePresolver(), st_);  // C20: RECSOLVER_LINKS=1
   DumpGraphOnce();                                         // C04: RECSOLVER_C04=1 (event `linkgraph`)
@@ -75,6 +104,7 @@ void RecBackend::Solve() {
 }
 
 void RecBackend::ReportResults() {
+  rec_fault("report");
   SetStatus({st_.scripted ? st_.code : 0, st_.scripted ? st_.msg : std::string("recorded")});
   BaseBackend::ReportResults();
 }
